@@ -145,6 +145,8 @@ def composition(crate, v, rule, is_F, wrapper_suffix, extra_ok=(), f_is_poll=Fal
                 continue   # calling a closure / function value handed around (e.g. Result::map(Self::new))
             if (x is v and (bb in F or bb in D)) or nm in STD_OK or nm in extra_ok or (nm or "").endswith(wrapper_suffix + "::new") or nm in PLUMBING:
                 continue
+            if (nm or "").endswith("::into_inner") and c.krate not in ("deserr",):
+                continue   # taking the document out of the framework's wrapper (`Json(v)` / `.into_inner()` / `.0`) is part of extracting it
             if c.krate in ("std", "core", "alloc", "futures", "futures_core", "futures_util"):
                 unknown.append((x, bb, nm))
             elif c.krate == "deserr":
@@ -161,7 +163,7 @@ def composition(crate, v, rule, is_F, wrapper_suffix, extra_ok=(), f_is_poll=Fal
                 if a["k"] == "const" and isinstance(a.get("fn"), dict):
                     fd = a["fn"]
                     nm = erase_generics(fd.get("path") or fd.get("full") or "")
-                    if fd.get("krate") in ("std", "core", "alloc", "deserr", crate.name) or nm in STD_OK or nm in extra_ok or nm in PLUMBING:
+                    if fd.get("krate") in ("std", "core", "alloc", "deserr", crate.name) or nm in STD_OK or nm in extra_ok or nm in PLUMBING or nm.endswith("::into_inner"):
                         continue
                     foreign.append((x, bb, nm + " (as a function value)"))
     for x, bb, nm in foreign:
